@@ -113,7 +113,7 @@ struct C06 : public Driver {
         for (int i = 0; i < 3; ++i) {
             SSCfg sc; sc.on = pickFeatures(g, allowed, 3, 9);
             if (g.chance(1, 2)) { sc.on.insert("key"); sc.on.insert("num-any"); } if (g.chance(1, 2)) sc.on.insert("paramuse"); if (g.chance(1, 2)) sc.on.insert("extfn");
-            if (g.chance(1, 2)) sc.on.insert("gate"); if (g.chance(1, 3)) sc.on.insert("num-gate"); if (g.chance(1, 2)) sc.on.insert("sortlang"); if (g.chance(1, 3)) sc.on.insert("lazyvar");
+            if (g.chance(1, 2)) { sc.on.insert("gate"); if (g.fork("wp").chance(1, 2)) sc.on.insert("withparam"); } if (g.chance(1, 3)) sc.on.insert("num-gate"); if (g.chance(1, 2)) sc.on.insert("sortlang"); if (g.chance(1, 3)) sc.on.insert("lazyvar");
             sc.keyVariant = (int)g.below(3); if (g.chance(1, 2)) sc.on.insert("key-prefixed"); if (g.chance(1, 2)) sc.on.insert("key-variant"); if (g.chance(1, 4)) sc.on.insert("rtf-key"); if (g.chance(1, 4)) sc.on.insert("ext-evaluate");
             { unsigned m = (unsigned)g.below(12); if (m == 0) { sc.method = ""; sc.rootName = "html"; } else if (m == 1) sc.method = "html"; else if (m == 2) sc.method = "text"; else if (m == 3) { sc.method = ""; } }   // output method: xml mostly; html, text, and the switch to html after the first element
             sc.dfVariant = (int)g.below(3); if (g.chance(1, 2)) sc.on.insert("fmtnum-df"); if (g.chance(1, 2)) sc.on.insert("sort-gate"); if (g.chance(1, 4)) sc.on.insert("bignum-alpha");
